@@ -99,11 +99,11 @@ package cgroup
 //@   trusted "os.WriteFile retried on EINTR"
 //@   pure
 
-//@ func pkg/cgroup.(*V2).ReadFile
+//@ func pkg/cgroup.(*V2).ReadFile props C20
 //@   arith int
 //@   requires c != nil
 //@   assigns nothing
-//@ func pkg/cgroup.(*V2).WriteFile
+//@ func pkg/cgroup.(*V2).WriteFile props C20
 //@   arith int
 //@   requires c != nil
 //@   assigns nothing
@@ -155,11 +155,11 @@ package cgroup
 //@   loop 0: invariant s != nil
 
 // v1: one accessor per controller directory (nil / empty path = controller not set up)
-//@ func pkg/cgroup.(*v1controller).ReadFile
+//@ func pkg/cgroup.(*v1controller).ReadFile props C20
 //@   arith int
 //@   nilsafe
 //@   assigns nothing
-//@ func pkg/cgroup.(*v1controller).WriteFile
+//@ func pkg/cgroup.(*v1controller).WriteFile props C20
 //@   arith int
 //@   nilsafe
 //@   assigns nothing
